@@ -458,3 +458,45 @@ def errno_rule(chk, facts, rule, exes, unit_ok=None):
                        'earlier, unrelated call (e.g. a failed include-path probe) is reported as a fatal I/O error' %
                        (callee_name(c), ' '.join(w[-4:])))
     return n
+
+
+def string_char_rule(chk, P, rule, unit_ok):
+    """A character read from a string value (x.p_str[i], *x.p_str) is a plain,
+    i.e. signed, char.  Passed as a number to a parameter wider than a byte it
+    is sign-extended for codes from 128 on, unless it is first converted to
+    unsigned char.  Yields the number of (call, argument) sites examined."""
+    def rawchar(e):
+        while isinstance(e, (list, tuple)) and e and e[0] in ('ref', 'cf'):
+            e = e[1]
+        if e[0] == '?':
+            r2, r3 = rawchar(e[2]), rawchar(e[3])
+            return True if True in (r2, r3) else ('conv' if 'conv' in (r2, r3) else False)
+        if e[0] == 'cast' and e[1] == 'e' and e[2] == 8 and rawchar(e[4]):
+            return 'conv'
+        if e[0] == 'i' and strip(e[1])[0] == 'm' and strip(e[1])[2].endswith('.p_str'):
+            return True
+        if e[0] == 'u' and e[1] == '*' and strip(e[2])[0] == 'm' and strip(e[2])[2].endswith('.p_str'):
+            return True
+        return False
+    n = 0
+    for f in P.all_funcs():
+        if not unit_ok(f.unit.name):
+            continue
+        for b, i, ln, c in f.calls():
+            for ai, a in enumerate(c[2]):
+                rc = rawchar(a)
+                if not rc:
+                    continue
+                cn = callee_name(c)
+                tg = [P.resolve(f.unit, cn)] if cn else list(P.indirect_targets(f, c)[0])
+                tg = [g for g in tg if g is not None and ai < len(g.params)]
+                if not tg:
+                    continue            # library function (strchr, printf family): int semantics of its own
+                n += 1
+                wide = [g for g in tg if abs(g.params[ai]['type'].get('bits') or 0) != 8]
+                ok = not wide or rc == 'conv'
+                chk.ob(rule, '%s:%s:%s#%d' % (f.unit.name, f.name, cn or show(c[1])[:24], ai + 1), ok, f.loc(ln),
+                       ('converted to unsigned char' if rc == 'conv' else 'byte-wide parameter') if ok else
+                       'a plain char from a string is passed to the %s parameter of %s: characters from 128 on are '
+                       'sign-extended (dw "\\200" gives C8 FF)' % (wide[0].params[ai]['type'].get('t'), wide[0].name))
+    return n
